@@ -287,11 +287,30 @@ def r10_6(run):
     run.count("operand re-wrapping sites with a derived constant flag", n)
 
 
+def r10_7(run):
+    """every function that accepts `constant` uses it (forwarding it to a tensor constructor / wrapper / _op)"""
+    n = 0
+    for fi in run.project.all_functions():
+        if "constant" not in fi.params():
+            continue
+        body = [b for b in fi.node.body if not (isinstance(b, ast.Expr) and isinstance(b.value, ast.Constant))]
+        if not body or all(isinstance(b, (ast.Pass, ast.Raise)) or (isinstance(b, ast.Expr) and isinstance(b.value, ast.Constant)) for b in body):
+            continue  # signature stubs (ufunc declarations, abstract methods)
+        if fi.has_decorator("overload"):
+            continue
+        n += 1
+        used = any(isinstance(x, ast.Name) and x.id == "constant" and isinstance(x.ctx, ast.Load) for x in ast.walk(fi.node))
+        run.ob("R10.7", loc(fi, fi.node), fi.short, "the `constant` parameter is used", used,
+               "read in the body" if used else "`constant=` is accepted and silently ignored: the result's constant-ness is inferred although the caller fixed it")
+    run.count("functions accepting constant=", n)
+
+
 def check(run):
     run.rule("R10.1", "Tensor.__init__ (tracking on): dtype gate raises before `_constant` is stored; default is `not is_float`; explicit flag kept", floor=6)
     run.rule("R10.2", "every value store to a tensor's _grad is on the non-constant edge of a `.constant` test (or is the seed after the constant early-exit)", floor=5)
     run.rule("R10.3", "Tensor._op: `constant` is only inferred when it is None; the explicit flag reaches the output tensor", floor=5)
     run.rule("R10.4", "backward() on a constant tensor only clears the graph", floor=2)
+    run.rule("R10.7", "no function accepts `constant` without using it", floor=100)
     run.rule("R10.6", "an operand that is re-wrapped (expand_dims/astensor...) with constant=<X>.constant uses its own flag", floor=2)
     run.rule("R10.5", "all wrappers forward constant=; in-place targets keep their flag", floor=80)
     r10_1(run)
@@ -300,3 +319,4 @@ def check(run):
     r10_4(run)
     r10_5(run)
     r10_6(run)
+    r10_7(run)
